@@ -411,7 +411,7 @@ class FastObjectUpdateCompressedDataDeserializer:
             sound_flags = tmpls.SoundFlags(sound_flags)
         name_value = None
         if flags & tmpls.CompressedFlags.NAME_VALUES.value:
-            name_value = reader.read(tmpls.NAMEVALUES_TERMINATED_TEMPLATE)
+            name_value = reader.read(tmpls.NAMEVALUES_COMPRESSED_TEMPLATE)
         path_curve, profile_curve, path_begin, path_end, path_scale_x, path_scale_y, \
             path_shear_x, path_shear_y, path_twist, path_twist_begin, path_radius_offset, \
             path_taper_x, path_taper_y, path_revolutions, path_skew, profile_begin, \
